@@ -220,6 +220,23 @@ func c16Case(cs *Case, auto bool) {
 		cache, _ = cdi.NewCache(cdi.WithSpecDirs(dirs...), cdi.WithAutoRefresh(false))
 	}
 	before := treeSnapshot(root)
+	// removing a name that does not exist succeeds, also while the last directory is missing
+	if _, err := os.Lstat(expected); err != nil && (strings.HasPrefix(lastShape, "missing") || chance(r, 20)) {
+		var rerr error
+		if pv, st := guard(func() { rerr = cache.RemoveSpec(wname) }); pv != nil {
+			cs.Violation("panic", nil, fmt.Sprintf("RemoveSpec panics: %v", pv), map[string]any{"w": wit, "stack": st})
+			return
+		}
+		c.Count("remove_before_write", 1)
+		if rerr != nil {
+			cs.Violation("remove-missing-fails", map[string]string{"last_dir": lastShape}, fmt.Sprintf("RemoveSpec(%q) of a name that was never written fails (last directory: %s): %v", wname, lastShape, rerr), wit)
+			return
+		}
+		if a, rm, ch := snapDiff(before, treeSnapshot(root)); len(a)+len(rm)+len(ch) > 0 {
+			cs.Violation("remove-touches-other", nil, fmt.Sprintf("RemoveSpec(%q) of a name that was never written changed the tree: added %v removed %v changed %v", wname, a, rm, ch), wit)
+			return
+		}
+	}
 	var werr error
 	if pv, st := guard(func() { werr = cache.WriteSpec(cloneSpec(spec), wname) }); pv != nil {
 		cs.Violation("panic", nil, fmt.Sprintf("WriteSpec panics: %v", pv), map[string]any{"w": wit, "stack": st})
